@@ -4,9 +4,10 @@
   The three clients correlate an answer with its call in different ways:
   * Streamable HTTP (`streamable_client.go send`): the answer arrives on the HTTP response of the POST that carried the
     request.  JSON body: no id check at all.  SSE body (`handleSSEResponse`/`processEventData`): the event whose
-    `fmt.Sprintf("%v", id)` equals `fmt.Sprintf("%v", reqID)` is the result, every other event is treated as a notification.
+    id key (`requestIDKey`; `fmt.Sprintf("%v", …)` before the D01 repair) equals the request's is the result, every other event
+    is treated as a notification.
   * legacy SSE (`sse_client.go sendRequestInternal`/`handleResponse`): `responses map[string]chan` keyed by
-    `fmt.Sprintf("%v", id)`; 1-slot channel, non-blocking send (`select … default`), deferred delete.
+    `requestIDKey(id)` (`fmt.Sprintf("%v", id)` before the D01 repair); 1-slot channel, non-blocking send (`select … default`), deferred delete.
   * stdio (`transport_stdio.go sendRequest`/`handleResponse`): `pendingRequests map[int64]chan`, the decoded `float64` id
     is converted with `int64(id)`; 1-slot channel, non-blocking send, deferred delete.
 
@@ -62,7 +63,8 @@ inductive Key where
 
 /-- how a pending table is keyed (regenerated from the source). -/
 inductive KeyKind where
-  | sprintfV      -- fmt.Sprintf("%v", id) on both sides
+  | idKey         -- requestIDKey(id) on both sides: "n:<decimal digits>" for every integer-valued number, "s:<string>" for a string
+  | sprintfV      -- fmt.Sprintf("%v", id) on both sides (the tree before the D01 repair)
   | int64         -- req.ID.(int64) at insert, int64(float64) at lookup
   | uint64        -- uint64(req.ID.(int64)) at insert, uint64(float64) at lookup (the two server tables)
   | other         -- anything the extractor does not recognise
@@ -70,6 +72,8 @@ inductive KeyKind where
 
 /-- key used when the request is registered. `none`: the bare assertion `req.ID.(int64)` panics. -/
 def keyOfReq : KeyKind → ReqId → Option Key
+  | .idKey, .int i => some (.txt (t!"n:" ++ intText i))
+  | .idKey, .str s => some (.txt (t!"s:" ++ s))
   | .sprintfV, .int i => some (.txt (fmtVInt i))
   | .sprintfV, .str s => some (.txt s)
   | .int64, .int i => some (.num i)
@@ -80,6 +84,8 @@ def keyOfReq : KeyKind → ReqId → Option Key
 
 /-- key computed from the id found in an incoming frame. `none`: "invalid response ID type", frame dropped. -/
 def keyOfDec : KeyKind → DecId → Option Key
+  | .idKey, .f64 v => some (.txt (t!"n:" ++ intText v))     -- integer-valued float64 in the int64 / uint64 range
+  | .idKey, .str s => some (.txt (t!"s:" ++ s))
   | .sprintfV, .f64 v => some (.txt (fmtVFloatInt v))
   | .sprintfV, .str s => some (.txt s)
   | .int64, .f64 v => some (.num (i64OfF64 v))
@@ -209,22 +215,23 @@ inductive PostEv where
   | notification
   deriving DecidableEq, Repr
 
-/-- `handleSSEResponse` with no notification handler registered: the first event whose `%v` id equals the request's
-    is the result; the stream ending without one is the error "connection closed but no final response received". -/
-def scanPostSse (c : Nat) : List PostEv → Outcome
+/-- `handleSSEResponse` with no notification handler registered: the first event whose id key equals the request's
+    is the result; the stream ending without one is the error "connection closed but no final response received".
+    `k` is how `processEventData` renders the two ids (regenerated fact). -/
+def scanPostSse (k : KeyKind) (c : Nat) : List PostEv → Outcome
   | [] => .error
-  | .notification :: rest => scanPostSse c rest
+  | .notification :: rest => scanPostSse k c rest
   | .frame f :: rest =>
-    if keyOfWire .sprintfV f.id = keyOfReq .sprintfV (.int (Int.ofNat c)) then .answer f.body else scanPostSse c rest
+    if keyOfWire k f.id = keyOfReq k (.int (Int.ofNat c)) then .answer f.body else scanPostSse k c rest
 
 /-- `handleSSEResponse` with a notification handler registered: it keeps reading to the end of the stream, the last
     matching event wins. -/
-def scanPostSseLast (c : Nat) (acc : Outcome) : List PostEv → Outcome
+def scanPostSseLast (k : KeyKind) (c : Nat) (acc : Outcome) : List PostEv → Outcome
   | [] => acc
-  | .notification :: rest => scanPostSseLast c acc rest
+  | .notification :: rest => scanPostSseLast k c acc rest
   | .frame f :: rest =>
-    if keyOfWire .sprintfV f.id = keyOfReq .sprintfV (.int (Int.ofNat c)) then scanPostSseLast c (.answer f.body) rest
-    else scanPostSseLast c acc rest
+    if keyOfWire k f.id = keyOfReq k (.int (Int.ofNat c)) then scanPostSseLast k c (.answer f.body) rest
+    else scanPostSseLast k c acc rest
 
 /-- `send` with a JSON body: the body's `result` is returned, the id is not looked at. -/
 def readPostJson (f : Frame) : Outcome := .answer f.body
